@@ -26,7 +26,7 @@ import (
 //
 // See coq/Model/Rep3Stream.v (model side) and coq/Spec/RepJudge.v (spec oracle).
 func init() {
-	hx.Register(&hx.Stream{Name: "c10", Gen: genC10, Run: runC10})
+	hx.Register(&hx.Stream{Name: "c10", Gen: genC10, Run: runC10, Shrink: shrinkC10, Describe: describeC10})
 }
 
 // ---------------------------------------------------------------------------------------------
